@@ -70,12 +70,29 @@ Proof. reflexivity. Qed.
 Lemma lookup_utf8 : lookup utf8 = Some utf8.
 Proof. vm_compute. reflexivity. Qed.
 
+Lemma lookup_win1252 : lookup win1252 = Some win1252.
+Proof. vm_compute. reflexivity. Qed.
+
 Lemma meta_never_utf16 raw e : detect_meta raw = Some e -> str_eqb e utf16le || str_eqb e utf16be = false.
 Proof.
   unfold detect_meta. destruct (prescan (firstn (N.to_nat numBytesMeta) raw)) as [x|]; [|discriminate].
   destruct (str_eqb x utf16le || str_eqb x utf16be) eqn:E.
   - rewrite lookup_utf8. intro H. inversion H; subst. vm_compute. reflexivity.
-  - intro H. inversion H; subst. exact E.
+  - destruct (str_eqb x [120;45;117;115;101;114;45;100;101;102;105;110;101;100]).
+    + rewrite lookup_win1252. intro H. inversion H; subst. vm_compute. reflexivity.
+    + intro H. inversion H; subst. exact E.
+Qed.
+
+(* ... and a declared x-user-defined means windows-1252 *)
+Lemma meta_never_x_user_defined raw e : detect_meta raw = Some e ->
+  str_eqb e [120;45;117;115;101;114;45;100;101;102;105;110;101;100] = false.
+Proof.
+  unfold detect_meta. destruct (prescan (firstn (N.to_nat numBytesMeta) raw)) as [x|]; [|discriminate].
+  destruct (str_eqb x utf16le || str_eqb x utf16be) eqn:E.
+  - rewrite lookup_utf8. intro H. inversion H; subst. vm_compute. reflexivity.
+  - destruct (str_eqb x [120;45;117;115;101;114;45;100;101;102;105;110;101;100]) eqn:E2.
+    + rewrite lookup_win1252. intro H. inversion H; subst. vm_compute. reflexivity.
+    + intro H. inversion H; subst. exact E2.
 Qed.
 
 (* only the first 1024 bytes are looked at *)
